@@ -171,7 +171,7 @@ def run(ctx: Ctx) -> None:
 
     def _xo():
         # two live suites: [query both] cross_over [query] mutate query query (every such call sequence)
-        return ctx.behaviours("MC_Cache", "MC_Cache_xo.cfg", workers=6 if q else "auto")
+        return ctx.behaviours("MC_CacheX", "MC_Cache_xo.cfg", workers=6 if q else "auto")
 
     def _sim():
         return ctx.simulate("MC_Cache", "MC_Cache_sim.cfg", num=150 if q else 600, depth=20 if q else 30)
@@ -247,6 +247,7 @@ def run(ctx: Ctx) -> None:
     pick |= set(by_shape.values())
     if not q:
         pick |= {k for k in chosen if len(seqs[k]["hist"]) < deepest.get(seqs[k]["ip"]["mode"], 0)}
+    budget += len(x_take)   # the two-suite family comes on top of the budget of the other families
     for k in sorted(chosen, key=h):
         if len(pick) >= budget:
             break
@@ -255,8 +256,6 @@ def run(ctx: Ctx) -> None:
     ctx.notes["replayed_sample"] = (f"{len(pick)} of {len(chosen)} call sequences ({len(by_shape)} shapes; "
                                     f"all of the focus/pattern modes and all model-predicted defects)")
     ctx.exhaustive = len(pick) == len(chosen)
-    if q:
-        budget += len(x_take)
     chosen = sorted(pick)
     behs = []
     for key in chosen:
